@@ -57,6 +57,8 @@ func runC12(l *core.Ledger) {
 	l.With(map[string]string{"C08-B3": "C12-X2"}, func() { c08B3x(l, r, false) })
 	c12X7(l, r)
 	c12X9(l, r)
+	l.Rule("C12-X11", "the goroutines Close has to stop cannot block each other (C09-W5 re-run: the lock order is acyclic and no lock is taken again while it is held) - a read lock taken a second time behind a waiting writer deadlocks the sender with the reader, and both outlive Close")
+	l.With(map[string]string{"C09-W5": "C12-X11"}, func() { c09W5(l, r) })
 	// X10: Close reaches a node through what the node carries when Close sees it: the cancel
 	// function and the channel are set before the node enters the pool (C15's write-once-before-
 	// publication rule for these two fields, re-run) - a node inserted first and connected afterwards
